@@ -76,6 +76,15 @@ public:
   virtual bool isVarName() const { return false; }
 
   /**
+   * Returns true if the expression designates a storage that a type method
+   * may manipulate in place: a variable, or an element, an item or the
+   * result of a type method of such an expression. The value of any other
+   * expression (operator, function, ...) must not be modified when it is an
+   * lvalue, because it could be the operand handed through.
+   */
+  virtual bool isStorage() const { return false; }
+
+  /**
    * Returns the symbol id allowing access to the value pointed to by
    * an expression, else the constant nid.
    */
